@@ -128,10 +128,13 @@ CHECKS = {
              "after every edit): each response is compared with a fresh non-incremental build (the property) and with the model's response "
              "(binding: zero drift on the unchanged tree); FsWatcher behaviours are replayed on the real watcher. On top, edit histories over the "
              "48-world catalogue D (2-step exhaustive in thorough + a fixed set of 3-4 step histories, with and without import following, with "
-             "recheck) are replayed, failures delta-minimised to canonical 1-minimal histories.",
+             "recheck), catalogue D2 (interface features x ways of depending on them) and fine-grained-cache starts are replayed, failures delta-minimised "
+             "to canonical 1-minimal histories; the repository's 713 fine-grained scenarios run on a real Server with their expected output ignored "
+             "(own order + there-and-back; thorough: reversed), every response against a fresh build.",
         design_ref="DESIGN.md 5.C03, 10",
         note="catalogue of three modules (re-export / inferred / internal use, import removed, file absent, syntax error); in-process "
-             "Server.check / cmd_recheck with test fixtures; known findings: the blocker-recovery family (38 minimal histories, findings.d/C03.json)",
+             "Server.check / cmd_recheck with test fixtures; known findings: the blocker-recovery family, def -> class kind change, fine-grained-cache families, package / submodule deletion and undo "
+             "families of the corpus (114 keys, findings.d/C03.json)",
         technique="TLA+ specs (Daemon.tla, FsWatcher.tla) model-checked with TLC; TLC behaviours and enumerated edit histories replayed on a real dmypy Server against a fresh-build oracle",
     ),
     "C07": dict(
@@ -150,14 +153,16 @@ CHECKS = {
     ),
     "C10": dict(
         category="exploration",
-        text="Context.tla defines the context space (8 hash seeds x 6 orders of the file arguments x 13 sequences of unrelated prior builds in the "
-             "same interpreter x 3 worlds) and the non-interference statement; TLC enumerates and emits every configuration, each is executed on the "
+        text="Context.tla defines the context space (8 hash seeds x 6 orders of the file arguments x 241 sequences of <=2 unrelated prior builds in the "
+             "same interpreter, each with its own options: same / python 3.10 / win32 + 3.11 + loose, x 5 worlds incl. an import cycle with diagnostics in "
+             "every module and misspelt stdlib imports) and the non-interference statement for the cold build and the warm build that follows it; TLC enumerates and emits every configuration, each is executed on the "
              "real code in an interpreter started with that PYTHONHASHSEED and compared with the baseline context: diagnostics byte for byte "
-             "(as a set across file orders), cache records byte for byte under a logical clock, and a warm run in the same interpreter. "
+             "(as a set across file orders), cache records byte for byte under a logical clock, and the output of a warm run in the same interpreter (against the cold output and, byte for byte, against the baseline's warm output). "
              "Exploration is the honest level: the state machine adds no reachability argument here, it generates the space.",
         design_ref="DESIGN.md 5.C10",
-        note="in-process builds with fixtures; worlds are acyclic with several indirect / suppressed dependencies and union types; cache-record "
-             "equality is only demanded between runs with the same file order",
+        note="in-process builds with fixtures; order-independence is only demanded of the acyclic worlds' diagnostics as a set; cache-record "
+             "equality is only demanded between runs with the same file order; quick executes ~500 of the 58 k configurations (every seed, every order, every "
+             "single prior build), thorough ~13 k; known finding: the only_once 'See ...#missing-imports' note follows the file listed first (4 keys)",
         technique="TLA+ spec (Context.tla) enumerates the context space with TLC; every configuration executed on real mypy and compared with the baseline context",
     ),
     "C02": dict(
@@ -167,8 +172,13 @@ CHECKS = {
              "both stores); TLC checks OutEqualsCold and FreshIsRight over all edit/touch/run histories of the bound and emits every history; each is "
              "replayed into real mypy in the store x format configurations with a cold run as oracle after every run and the model's "
              "re-analysed / reported sets as binding; recorded store traces are validated against Trace_Incremental.tla. Catalogue R histories "
-             "(2-step exhaustive in thorough, seeded 3-4 step with stubs / deletions) are real-vs-real.",
-        design_ref="DESIGN.md 5.C02",
+             "(a fixed set of 2-step and 3-4 step histories with stubs / deletions / packages / file moves), catalogue T (cycles, transitively reachable "
+             "submodules, follow modes) and catalogue G (TransDeps.tla) are real-vs-real. The repository's own incremental scenarios run with their expected "
+             "output ignored (own order, there-and-back, thorough: reversed); every single-step case of every check-*.test file (7.7 k programs, quick 1/8) "
+             "must print the same without a cache, while writing it, replayed from it and re-analysed against dependencies deserialised from it; and "
+             "every CacheMeta / CacheMetaEx object the build reads must equal, field by field, the object last written for that entry (the model's "
+             "Load = last committed WMeta / WEx), incl. a field-rich program in all four configurations.",
+        design_ref="DESIGN.md 5.C02, 10",
         note="bounded catalogue of 3-5 modules and 4-6 content variants each; logical clock (A-clock); in-process build with test fixtures; "
              "oracle is a cold run of the same code; trusted: TLC, the harness' store proxy",
         technique="TLA+ spec (Incremental.tla) model-checked with TLC; TLC-generated histories replayed into real mypy against a cold-run oracle; trace validation with Trace_Incremental.tla",
@@ -190,8 +200,9 @@ CHECKS = {
         category="model_checking",
         text="CacheKey.tla (options as validity key, rendered diagnostics stored, print options applied at replay) is instantiated with constants "
              "extracted from the code (option table, OPTIONS_AFFECTING_CACHE, options read by format_messages) and a measured Affects relation; "
-             "TLC lists the options with a stale history; every affected option x place (config global, command line, per-module section) x "
-             "witness is replayed on real mypy as A;B, B;A, A;B;A, B;A;B on one cache with a cold run of the same options as oracle.",
+             "TLC lists the options with a stale history; every affected option x place (config global, command line, per-module section exact / wildcard / "
+             "pinned / own, pairwise contexts of the print and report options) x witness (5 fixture programs, one typeshed program, a two-plugin program for the "
+             "order-sensitive `plugins`) is replayed on real mypy as A;B, B;A, A;B;A, B;A;B on one cache with a cold run of the same options as oracle.",
         design_ref="DESIGN.md 5.C09",
         note="options without a witness program are listed as not exercised; options that move the cache (python_version, cache_dir) excluded; "
              "Options are built by main.process_options from real argv / mypy.ini, the build runs in-process with fixtures",
